@@ -255,9 +255,11 @@ def _chunks(n: int, size: int) -> list[tuple[int, int]]:
 
 
 def validate(module: str, traces: list[dict[str, Any]], sweeps: list[dict[str, Any]] | None = None,
-             chunk: int = 4000, jobs: int = 6, workers: int = 2) -> tuple[dict[int, list[Any]], list[Any], list[Any]]:
-    """Validate traces (ids = positions) with TLC in parallel JVMs.
-    Returns ({id: [verdict, extra]}, sweep lines, TlcResults)."""
+             chunk: int = 4000, jobs: int = 6, workers: int = 2,
+             sweep_chunk: int = 20000) -> tuple[dict[int, list[Any]], list[Any], list[Any]]:
+    """Validate traces with TLC in parallel JVMs.  Trace ids are positions in `traces`; the records of
+    sweep k (`sweeps[k]["records"]`, pointed to by its 1-based `codes`) get the ids following them, in
+    order (`sweeps[k]["first_id"]` is set).  Returns ({id: [verdict, extra...]}, sweep lines, TlcResults)."""
     batches: list[dict[str, Any]] = []
     for lo, hi in _chunks(len(traces), chunk):
         sub = []
@@ -266,11 +268,23 @@ def validate(module: str, traces: list[dict[str, Any]], sweeps: list[dict[str, A
             t["id"] = i
             sub.append(t)
         batches.append({"traces": sub, "sweeps": []})
-    if sweeps:
-        # a sweep travels with the records it points to: own batch, ids local to it
-        for sw in sweeps:
-            batches.append({"traces": sw["records"], "sweeps": [{"sid": sw["sid"], "len": sw["len"],
-                                                                 "codes": sw["codes"]}]})
+    nxt = len(traces)
+    cur: dict[str, Any] = {"traces": [], "sweeps": []}
+    for sw in sweeps or []:
+        # small sweeps share a batch; codes are rebased onto the batch's trace list
+        if cur["sweeps"] and len(cur["traces"]) + len(sw["records"]) + len(sw["codes"]) // 8 > sweep_chunk:
+            batches.append(cur)
+            cur = {"traces": [], "sweeps": []}
+        base = len(cur["traces"])
+        sw["first_id"] = nxt
+        for r in sw["records"]:
+            t = dict(r)
+            t["id"] = nxt
+            nxt += 1
+            cur["traces"].append(t)
+        cur["sweeps"].append({"sid": sw["sid"], "len": sw["len"], "codes": [c + base if c else 0 for c in sw["codes"]]})
+    if cur["sweeps"]:
+        batches.append(cur)
     verdicts: dict[int, list[Any]] = {}
     sweep_lines: list[Any] = []
     results: list[Any] = []
